@@ -163,7 +163,8 @@ func (fr *frame) runDefer(d *deferred) {
 	defer func() {
 		if !ok {
 			r := recover()
-			if _, isAbort := r.(pathAbort); isAbort {
+			switch r.(type) {
+			case pathAbort, stopSignal, killed, internalErr:
 				panic(r)
 			}
 			if _, isTP := r.(targetPanic); !isTP {
@@ -655,7 +656,7 @@ func (fr *frame) runFrame() {
 		r := recover()
 		if _, isTP := r.(targetPanic); !isTP {
 			switch r.(type) {
-			case pathAbort, internalErr, killed:
+			case pathAbort, internalErr, killed, stopSignal:
 				panic(r)
 			}
 			pos := ""
